@@ -42,7 +42,6 @@ var DictHandshakeTypeValueIndexed = map[uint8]string{
 	4:   "new_session_ticket",
 	5:   "end_of_early_data",
 	6:   "hello_retry_request",
-	7:   "Unassigned",
 	8:   "encrypted_extensions",
 	9:   "request_connection_id",
 	10:  "new_connection_id",
